@@ -37,6 +37,12 @@ fn archetypes(tier: Tier) -> Vec<(String, Block, bool)> {
         v.push((format!("RLE literals, regenerated size {n}, no sequences"), Block::Compressed { lits: Lits::Rle(0x33, n, 3), count_form: 1, modes: pre(), seqs: vec![], pick: 0 }, ok));
     }
     v.push(("RLE literals 131072 + one match of 3".into(), Block::Compressed { lits: Lits::Rle(0x33, 131072, 3), count_form: 1, modes: pre(), seqs: vec![Seq { ll: 2, ml: 3, of: 3 + 1 }], pick: 0 }, false));
+    // the block header itself: RLE blocks (one stored byte) and raw blocks whose Block_Size field exceeds 128 KiB
+    for n in [131073u32, 172032, (1 << 21) - 1] {
+        v.push((format!("RLE block with Block_Size {n}"), Block::Hostile(1, n, vec![0x5A]), false));
+        v.push((format!("raw block with Block_Size {n} (content present)"), Block::Hostile(0, n, vec![0x11; n as usize]), false));
+    }
+    v.push(("RLE block of exactly 128 KiB".into(), Block::Rle(0x5A, 131072), true));
     // Huffman literals with 1-bit codes and an 18-bit regenerated size
     for (n, ok) in [(131072usize, true), (131073, false), (262143, false)] {
         let lits: Vec<u8> = (0..n).map(|i| (i % 2) as u8).collect();
